@@ -444,17 +444,34 @@ instance (d : FileDoc) (info : Info) (wit : List (String × Layout)) (out : List
     Decidable (SpecFileAt d info wit out) := by
   unfold SpecFileAt; split <;> exact inferInstance
 
-/-- **The property for one run**: refused exactly when the metadata is bad; otherwise every
-documented file satisfies `SpecFile` for the lines of the effective blocks. -/
-def SpecOutcome (fields : List String) (docs : List FileDoc) (wit : List (String × Layout))
-    (mds : List Md) (base : Base) : Outcome → Prop
+/-- No line may be lost: on a backend where *every* field has to be honoured (`placed = some ps`,
+ATLAS) a block may only carry lines in fields that have a documented place. (`none`: the backend
+honours the placed fields only — CMS, where only `body_includes` has a place.) -/
+def NoLostLines (fields : List String) (placed : Option (List String)) (bs : List Block) : Prop :=
+  match placed with
+  | none => True
+  | some ps => ∀ b ∈ bs, ∀ f ∈ fields, b.get f ≠ [] → f ∈ ps
+
+instance (fields : List String) (placed : Option (List String)) (bs : List Block) :
+    Decidable (NoLostLines fields placed bs) := by
+  unfold NoLostLines; split <;> exact inferInstance
+
+/-- **The property for one run**: refused exactly when the metadata is bad; otherwise every line of
+every effective block belongs to a field that has a place, and every documented file satisfies
+`SpecFile` for the lines of the effective blocks. -/
+def SpecOutcome (fields : List String) (docs : List FileDoc) (placed : Option (List String))
+    (wit : List (String × Layout)) (mds : List Md) (base : Base) : Outcome → Prop
   | .refused => Bad fields mds
-  | .files out => ¬ Bad fields mds ∧
+  | .files out => ¬ Bad fields mds ∧ NoLostLines fields placed (effective fields mds) ∧
       ∀ d ∈ docs, SpecFileAt d (expectedInfo base (effective fields mds)) wit out
 
-instance (fields : List String) (docs : List FileDoc) (wit : List (String × Layout))
-    (mds : List Md) (base : Base) (o : Outcome) : Decidable (SpecOutcome fields docs wit mds base o) := by
+instance (fields : List String) (docs : List FileDoc) (placed : Option (List String))
+    (wit : List (String × Layout)) (mds : List Md) (base : Base) (o : Outcome) :
+    Decidable (SpecOutcome fields docs placed wit mds base o) := by
   cases o <;> unfold SpecOutcome <;> exact inferInstance
+
+/-- the fields that have a documented place on ATLAS (all of them must) -/
+def atlasPlaced : Option (List String) := some (atlasFieldPlace.map (·.1))
 
 /-- the metadata level on its own: what `process_metadata` may return -/
 def SpecProcess (fields : List String) (mds : List Md) : Option (List Block) → Prop
